@@ -65,7 +65,7 @@ def run(R, env):
             if ns_of(prog, op["args"][0]) != "config":
                 continue
             alts = shared.write_value_alternatives(prog, op, "config") or []
-            good = bool(alts) and all(is_load(prog, base, "config", CRATE) and d == {("stopped",): ("const", "bool", True)} for base, d in alts)
+            good = bool(alts) and all(shared.effective_delta(prog, base, d, "config", CRATE) == {("stopped",): ("const", "bool", True)} for base, d in alts)
             R.ob("C10.R3", "CircuitBreaker:only-stopped", good, "saved config = %s, expected loaded config with only stopped := true" % fmt(op.get("value") or op["args"][2])[:200], loc=op["loc"], fn=hk)
         for bb, t in success_terms(hctx):
             msgs = response_calls(t)
@@ -85,7 +85,7 @@ def run(R, env):
             ns = ns_of(prog, op["args"][0])
             if ns == "config" and op["wop"] == "save":
                 alts = shared.write_value_alternatives(prog, op, "config") or []
-                good = bool(alts) and all(is_load(prog, base, "config", CRATE) and d == {("stopped",): ("const", "bool", False)} for base, d in alts)
+                good = bool(alts) and all(shared.effective_delta(prog, base, d, "config", CRATE) == {("stopped",): ("const", "bool", False)} for base, d in alts)
                 R.ob("C10.R4", "ResumeContract:config-delta", good, "saved config = %s, expected loaded config with only stopped := false" % fmt(op.get("value") or op["args"][2])[:200], loc=op["loc"], fn=hk)
             if ns == "state" and op["wop"] == "save":
                 alts = shared.write_value_alternatives(prog, op, "state") or []
